@@ -161,6 +161,22 @@ CHECKS.update(
     ),
 )
 
+CHECKS.update(
+    C17=dict(
+        category="other",
+        text="(1) _ti_calc_trim on unbounded z3 integers: conservation and non-negativity. (2) The real UrwidImageCanvas is built from the real "
+        "split-cell block render (symbolic pixel colours / alpha classes) and the real _format_render padding; content() runs for every "
+        "sub-rectangle (solver-forked selectors); every yielded row is interpreted on the terminal model with a symbolic probe column and "
+        "must occupy exactly `cols` columns, show the same half-cell colours as the untrimmed canvas at the shifted position and end with "
+        "attributes reset. (3) graphics canvases: vertical trim selects the matching lines, horizontal trim yields blanks. (4) rows() == "
+        "render().rows() for symbolic widths / source sizes / cell ratios.",
+        note="Trusted: terminal model, z3, engine; urwid's own compositing. Canvas geometry enumerated (image 1-3 cells x 1-2 lines, padding "
+        "0-2 per side); floats in (4) relaxed to reals with relative error.",
+        design="3 C17",
+        technique=TECH_S + "; terminal-model comparison of trimmed vs. untrimmed canvas rows",
+    ),
+)
+
 PENDING = {}
 
 
